@@ -262,7 +262,7 @@ Definition rcpt_msg : rd :=
         TEnd (mkname (str "jabber:client") (str "message"))] TmEOF.
 
 Lemma receipts_no_delete_parks f : f_rcpt_delete_first f = false -> mem CBlocked (receipts_handle f rcpt_env rcpt_msg) = true.
-Proof. destruct f as [a b c d]. cbn [f_rcpt_delete_first]. intros ->. vm_compute. reflexivity. Qed.
+Proof. destruct f as [a b c d w]. cbn [f_rcpt_delete_first]. intros ->. vm_compute. reflexivity. Qed.
 
 (* ibb: with the owner check a waiting Expect call is always registered *)
 Lemma e_step_not_lost st o : st <> ELost -> e_step true st o <> ELost.
@@ -284,7 +284,7 @@ Qed.
 Lemma ibb_iq_no_panic f e start : f_keys_agree f = true -> no_panic (ibb_iq f e start).
 Proof.
   intro Hk. unfold ibb_iq. destruct start; try reflexivity.
-  destruct (bytes_eqb (nlocal n) (str "open") && e_ok e); [|reflexivity]. rewrite Hk.
+  destruct (bytes_eqb (nlocal n) (str "open") && e_ok e); [|destruct (_ && _); reflexivity]. rewrite Hk.
   pose proof (l_state_not_stale (e_full e) (e_hist e)) as Hs.
   destruct (l_state true (e_full e) (e_hist e)) as [|acc|]; try reflexivity; [|congruence].
   destruct (if e_match e then _ else _); try reflexivity; destruct acc; reflexivity.
@@ -298,21 +298,24 @@ Definition listener_served (f : facts) (e : env) : bool :=
   | _ => true
   end.
 
-Lemma ibb_iq_served f e start : f_keys_agree f = true -> listener_served f e = true -> safe (ibb_iq f e start).
+Lemma ibb_iq_served f e start :
+  f_keys_agree f = true -> f_close_no_wait f = true -> listener_served f e = true -> safe (ibb_iq f e start).
 Proof.
-  intros Hk Hs. split; [apply ibb_iq_no_panic; exact Hk|].
+  intros Hk Hc Hs. split; [apply ibb_iq_no_panic; exact Hk|].
   unfold ibb_iq, listener_served in *. destruct start; try reflexivity.
-  destruct (bytes_eqb (nlocal n) (str "open") && e_ok e); [|reflexivity].
+  destruct (bytes_eqb (nlocal n) (str "open") && e_ok e); [|rewrite Hc, andb_false_r; reflexivity].
   destruct (l_state (f_keys_agree f) (e_full e) (e_hist e)) as [|[|]|]; try reflexivity.
   - destruct (if e_match e then _ else _); reflexivity.
   - destruct (e_match e); [|discriminate]. cbn [andb] in Hs.
     destruct (e_state (f_expect_owner f) (e_hist e)); try discriminate. reflexivity.
 Qed.
 
-Lemma ibb_iq_blocked f e start : mem CBlocked (ibb_iq f e start) = true -> listener_served f e = false.
+Lemma ibb_iq_blocked f e start : mem CBlocked (ibb_iq f e start) = true ->
+  listener_served f e = false \/ f_close_no_wait f = false.
 Proof.
   unfold ibb_iq, listener_served. destruct start; try discriminate.
-  destruct (bytes_eqb (nlocal n) (str "open") && e_ok e); [|discriminate].
+  destruct (bytes_eqb (nlocal n) (str "open") && e_ok e);
+    [left | destruct (f_close_no_wait f); [rewrite andb_false_r; discriminate | right; reflexivity]].
   destruct (l_state (f_keys_agree f) (e_full e) (e_hist e)) as [|[|]|]; try discriminate.
   - destruct (if e_match e then _ else _); discriminate.
   - destruct (e_match e); [|reflexivity]. cbn [andb].
@@ -322,10 +325,10 @@ Qed.
 (* an <open/> for the session a live Expect call is waiting for is delivered,
    with or without anybody in Accept *)
 Lemma ibb_expected_open_delivered f e start :
-  f_keys_agree f = true -> f_expect_owner f = true ->
+  f_keys_agree f = true -> f_close_no_wait f = true -> f_expect_owner f = true ->
   e_match e = true -> expect_live (e_hist e) = true -> safe (ibb_iq f e start).
 Proof.
-  intros Hk Ho Hm Hl. apply ibb_iq_served; [exact Hk|].
+  intros Hk Hc Ho Hm Hl. apply ibb_iq_served; [exact Hk|exact Hc|].
   unfold listener_served. rewrite Ho, Hm, (expect_live_registered _ Hl).
   destruct (l_state _ _ _) as [|[|]|]; reflexivity.
 Qed.
@@ -335,14 +338,21 @@ Definition takeover_env : env := mkenv [] true (str "set") true true [ALListen; 
 
 Lemma ibb_lost_registration_parks f : f_expect_owner f = false ->
   mem CBlocked (ibb_iq f takeover_env (TStart (mkname (str "http://jabber.org/protocol/ibb") (str "open")) [])) = true.
-Proof. destruct f as [a b c d]. cbn [f_expect_owner]. intros ->. destruct a; vm_compute; reflexivity. Qed.
+Proof. destruct f as [a b c d w]. cbn [f_expect_owner]. intros ->. destruct a; vm_compute; reflexivity. Qed.
+
+(* the witness of a close that waits for the writer: an acknowledged stream with a Write in progress *)
+Definition writing_env : env := mkenv [] true (str "set") true true [ALListen; ALAcceptor; AEOpen; AWWrite] true.
+Definition close_start : token := TStart (mkname (str "http://jabber.org/protocol/ibb") (str "close")) [].
+
+Lemma ibb_close_waiting_parks f : f_close_no_wait f = false -> mem CBlocked (ibb_iq f writing_env close_start) = true.
+Proof. destruct f as [a b c d w]. cbn [f_close_no_wait]. intros ->. vm_compute. reflexivity. Qed.
 
 (* the witness of a key mismatch: full local JID, Listen, Close, then <open/> *)
 Definition stale_env : env := mkenv [] true (str "set") true true [ALListen; ALAcceptor; ALClose] false.
 Definition open_start : token := TStart (mkname (str "http://jabber.org/protocol/ibb") (str "open")) [].
 
 Lemma ibb_key_mismatch_panics f : f_keys_agree f = false -> mem CPanic (ibb_iq f stale_env open_start) = true.
-Proof. destruct f as [k d o r]. cbn [f_keys_agree]. intros ->. vm_compute. reflexivity. Qed.
+Proof. destruct f as [k d o r w]. cbn [f_keys_agree]. intros ->. vm_compute. reflexivity. Qed.
 
 (* muc *)
 Lemma muc_presence_no_panic f e : no_panic (muc_presence f e).
@@ -364,14 +374,14 @@ Qed.
 Definition depart_env : env := mkenv [] true (str "unavailable") true true [AMJoin; AMDepart; AMJoin] false.
 
 Lemma muc_plain_send_parks f : f_depart_select f = false -> mem CBlocked (muc_presence f depart_env) = true.
-Proof. destruct f as [k d o r]. cbn [f_depart_select]. intros ->. vm_compute. reflexivity. Qed.
+Proof. destruct f as [k d o r w]. cbn [f_depart_select]. intros ->. vm_compute. reflexivity. Qed.
 
 (* ---- every component, under the condition its environment must meet ---- *)
 
 Definition comp_cond (f : facts) (c : comp) (e : env) : bool :=
   match c with
   | HHistory => e_ready e
-  | HIbbIQ => listener_served f e
+  | HIbbIQ => listener_served f e && f_close_no_wait f
   | HMucPres => f_depart_select f
   | HReceipts => f_rcpt_delete_first f
   | _ => true
@@ -383,7 +393,7 @@ Proof.
   intros Hk H. destruct c; cbn [run_comp comp_cond] in *;
     first [ apply safe_returns | apply safe_ok
           | apply history_ready_safe; exact H
-          | apply ibb_iq_served; assumption
+          | (apply andb_true_iff in H; destruct H; apply ibb_iq_served; assumption)
           | apply muc_presence_select; exact H
           | apply receipts_handle_safe; exact H
           | apply carbons_handle_safe | apply blocklist_handle_safe | apply unmarshal_iq_safe | apply ping_send_safe
@@ -462,6 +472,9 @@ Lemma expect_cleanup_checks_owner : f_expect_owner gen_facts = true.
 Proof. vm_compute. reflexivity. Qed.
 
 Lemma receipts_delete_first : f_rcpt_delete_first gen_facts = true.
+Proof. vm_compute. reflexivity. Qed.
+
+Lemma serve_close_never_waits_for_writer : f_close_no_wait gen_facts = true.
 Proof. vm_compute. reflexivity. Qed.
 
 Lemma session_maps_accessed_under_lock : session_maps_locked = true.
@@ -571,11 +584,11 @@ Lemma receipts_witness_returns : receipts_handle gen_facts (mkenv [] true [] tru
 Proof. vm_compute. reflexivity. Qed.
 
 Lemma nw_ibb_partial f e start :
-  f_keys_agree f = true ->
+  f_keys_agree f = true -> f_close_no_wait f = true ->
   mem CPanic (ibb_iq f e start) = false /\
   (listener_served f e = true -> mem CBlocked (ibb_iq f e start) = false).
 Proof.
-  intro Hk. split; [apply ibb_iq_no_panic; exact Hk|]. intro H. apply (ibb_iq_served f e start Hk H).
+  intros Hk Hc. split; [apply ibb_iq_no_panic; exact Hk|]. intro H. apply (ibb_iq_served f e start Hk Hc H).
 Qed.
 
 Lemma np_this_tree c e start rs : mem CPanic (run_comp gen_facts c e start rs) = false.
@@ -603,7 +616,8 @@ Qed.
 
 Lemma no_wedge_partial f c e start rs :
   mem CBlocked (run_comp f c e start rs) = true ->
-  (c = HHistory /\ e_ready e = false) \/ (c = HIbbIQ /\ listener_served f e = false) \/
+  (c = HHistory /\ e_ready e = false) \/
+  (c = HIbbIQ /\ (listener_served f e = false \/ f_close_no_wait f = false)) \/
   (c = HMucPres /\ f_depart_select f = false) \/ (c = HReceipts /\ f_rcpt_delete_first f = false).
 Proof.
   intro H.
